@@ -32,6 +32,23 @@ class C(Collector):
         return len(self.records)
 
 
+class SysId(str):
+    """an identifier that is a string without being exactly `str`, printing differently from its value"""
+
+    def __str__(self):
+        return "SysId<%s>" % str.__str__(self)
+
+
+import enum
+EnumId = enum.Enum("EnumId", {k: k for k in ("s0", "s1", "s2", "s3", "s4", "s5", "new")}, type=str)
+
+
+def _id(name):
+    """the identifier `name` in the identifier type of the partition: str (default), a str subclass, a str-valued enum member"""
+    t = hx.P.get('idtype', 'str')
+    return name if t == 'str' else (SysId(name) if t == 'strsub' else EnumId(name))
+
+
 def _same_registry(d, exp_items):
     items = list(d.items())
     if len(items) != len(exp_items):
@@ -46,7 +63,7 @@ def _prestate(m, n, ps):
     """An arbitrary I1 state with n entries, built directly (not through the API)."""
     q = []
     for i in range(n):
-        s = (C if i % 2 else S)("s%d" % i, m, priority=ps[i])
+        s = (C if i % 2 else S)(_id("s%d" % i), m, priority=ps[i])
         q.append(s)
         m.systems.systems[s.id] = s
     m.systems.execution_queue[:] = q          # (in place: the list object is the scheduler's own)
@@ -64,7 +81,7 @@ def add_step(p0: int, p1: int, p2: int, p3: int, p4: int, p5: int, p: int, j: in
     m = LogModel()
     ps = [p0, p1, p2, p3, p4, p5]
     q = _prestate(m, n, ps)
-    new_id = "new" if j < 0 else "s%d" % j
+    new_id = _id("new" if j < 0 else "s%d" % j)
     if kind == 'sys':
         new = S(new_id, m, priority=p)
     elif kind == 'col':
@@ -361,7 +378,7 @@ def obligations(tier):
     kinds = ['sys', 'col', 'sys_default', 'col_default']
     obs = [
         X("add_step", add_step, parts=[{"n": n, "kind": k} for n in range(N + 1) for k in kinds if not (n < N and k == 'col' and n % 2)] +
-          [{"n": 3, "kind": "sys", "alias": True}],
+          [{"n": 3, "kind": "sys", "alias": True}, {"n": 2, "kind": "sys", "idtype": "strsub"}, {"n": 3, "kind": "col", "idtype": "enum"}],
           labels=("insert", "collide"), labels_for=lambda p: ("insert", "collide") if p["n"] else ("insert",),
           timeout=120, group=4,
           encoded=(SystemManager.add_system, SystemManager.execute_systems, System.__init__, Collector.__init__, Collector.execute),
